@@ -55,12 +55,16 @@ BASES = [
     ("with_examples", {"phases": ["examples", "coverage", "fuzzing"], "max_examples": 2}),
     ("four", {"phases": ["coverage", "fuzzing"], "max_examples": 3}),
     ("four", {"phases": ["fuzzing"], "max_examples": 3, "modes": ["negative"]}),
+    # an error that belongs to no operation (unresolvable path item): still an error of the phase and of the run
+    ("broken_item", {"phases": ["coverage", "fuzzing"], "max_examples": 2}),
+    # a check that fails on a request it derives itself (credentials removed): the failure belongs to THAT request
+    ("secured", {"phases": ["fuzzing"], "max_examples": 3, "headers": {"X-API-Key": "user-key-123"}, "checks_override": ["ignored_auth"]}),
 ]
 ALL_CHECKS = ["not_a_server_error", "status_code_conformance", "content_type_conformance", "response_schema_conformance"]
 
 # behaviour name -> (rules, which check it must trip, kind)
 def behaviours(doc_name):
-    target = {"one": "/items", "two_linked": "/users/", "four": "/a", "eight": "/r3", "with_examples": "/a"}[doc_name]
+    target = {"one": "/items", "two_linked": "/users/", "four": "/a", "eight": "/r3", "with_examples": "/a", "broken_item": "/a", "secured": "/open"}[doc_name]
     rx = "^" + target
     out = {
         "ok": ([], None),
@@ -120,6 +124,10 @@ def execute(case):
     elif case.get("delay"):
         plan_ = {case["delay"]["point"]: [{"hit": case["delay"]["hit"], "action": "delay", "arg": 0.3}]}
     checks = case["checks"]
+    if cfg.get("checks_override"):
+        checks = sorted(set(checks) | set(cfg["checks_override"]))
+        cfg = {k: v for k, v in cfg.items() if k != "checks_override"}
+        case = dict(case, mode="api")
     if case["mode"] == "cli":
         return engine.run_cli(docs.DOCS[doc_name](), cli_args(cfg, checks, case["seed"]), rules=rules, plan=plan_, timeout=120)
     return engine.run_api(docs.DOCS[doc_name](), dict(cfg, seed=case["seed"], checks=checks), rules=rules, plan=plan_, timeout=120)
@@ -223,6 +231,21 @@ def judge(case, result):
             lost = recorded - reported
             if lost:
                 viols.append(("C05/recorded-failure-missing-from-report", f"server errors {sorted(lost)} are in the recorders but not in the report's failure list {sorted(reported)}"))
+    # an error event of a phase makes that phase errored (whether or not it names an operation)
+    for err in errors:
+        phase = err.get("phase")
+        statuses = [e["status"] for e in events if e["type"] == "PhaseFinished" and e["phase"] == phase]
+        if phase and statuses and statuses[-1] in ("SUCCESS", "SKIP") and limit is None:
+            viols.append(("C05/phase-not-errored-despite-error-event", f"{phase} finished {statuses[-1]} although it emitted {err.get('error_type')}"))
+            break
+    # a failure of `ignored_auth` is caused by the request the check sent WITHOUT the credentials
+    for e, cid, c, inter in failures:
+        if c["name"] == "ignored_auth" and inter is not None:
+            sent_key = [v for k, v in (inter.get("headers") or {}).items() if k.lower() == "x-api-key"]
+            flat = [x for v in sent_key for x in (v if isinstance(v, list) else [v])]
+            if "user-key-123" in flat:
+                viols.append(("C05/failure-recorded-with-another-request:ignored_auth", f"the failure is filed under a request that carries the user's key: {flat}"))
+                break
     if fired:
         point = fired[0]["point"]
         if exit_code == 0:
@@ -239,7 +262,8 @@ def judge(case, result):
         labels = []
         for template, item in doc["paths"].items():
             for method in item:
-                labels.append(f"{method.upper()} {template}")
+                if method != "$ref":
+                    labels.append(f"{method.upper()} {template}")
         phase_names = {"examples": "EXAMPLES", "coverage": "COVERAGE", "fuzzing": "FUZZING"}
         for phase in cfg["phases"]:
             if phase not in phase_names:
